@@ -92,6 +92,11 @@ func genC02(g *gen, c *sim.Case, tier string) {
 	c.Mode = "conc"
 	c.Sched = sched(r, time.Second, 40000)
 	keys := []string{"a", "b", "c"}[:1+r.Intn(3)]
+	if r.Chance(1, 6) {
+		// distinct keys that a normalising or formatting key mapping would merge
+		keys = sim.Pick(r, []string{"a", "a/"}, []string{"dir/x", "dir//x"}, []string{"a", "a/.."}, []string{"k", "k "}, []string{"a", "A"},
+			[]string{"p%20q", "p%22q"}, []string{"a", "a*"}, []string{"ab", "a", "abc"})
+	}
 	nt := 2 + r.Intn(3)
 	maxOps := 6
 	if tier == "thorough" && r.Chance(1, 3) {
@@ -201,6 +206,9 @@ var c03Keys = []string{"a", "b", "c", "dir/x"}
 
 // distinct strings that a path-like normalisation would merge
 var c03OddKeys = []string{"a", "a/", "./a", "dir/x", "dir//x", "dir/./x", ".", "a/..", emptyKey, "b"}
+
+// keys with characters that mean something to formatting, escaping or quoting layers
+var c03PctKeys = []string{"p%20q", "p%22q", "100%", "%s", "%d%d", "a b", "a\tb", "a:b", "a\"b"}
 var c03Patterns = []string{"*", "a*", "?", "dir/*", "[ab]", "a", "b", "dir/x", "a/", emptyKey, "?*"}
 
 func genC03(g *gen, c *sim.Case, tier string) {
@@ -225,6 +233,8 @@ func genC03(g *gen, c *sim.Case, tier string) {
 	keys := c03Keys
 	if r.Chance(1, 4) {
 		keys = c03OddKeys
+	} else if r.Chance(1, 6) {
+		keys = c03PctKeys
 	}
 	for i := 0; i < n; i++ {
 		task.Ops = append(task.Ops, g.seqOp(keys, false))
@@ -248,7 +258,7 @@ func (g *gen) seqOp(keys []string, withShortExpiry bool) sim.Op {
 			// "practically never" sentinels, beyond what a Duration can hold
 			return sim.Pick(r, FarExpiry2500, FarExpiry9999, int64(200*365*24*time.Hour))
 		default:
-			return int64(sim.Pick(r, 5*time.Millisecond, 50*time.Millisecond, time.Second, 20*time.Second))
+			return int64(sim.Pick(r, 5*time.Millisecond, 50*time.Millisecond, time.Second, 20*time.Second, 300*time.Microsecond, 900*time.Microsecond, 1500*time.Microsecond))
 		}
 	}
 	switch r.Intn(14) {
@@ -300,40 +310,7 @@ func (g *gen) seqOp(keys []string, withShortExpiry bool) sim.Op {
 func genC06(g *gen, c *sim.Case, tier string) {
 	r := g.r
 	if r.Chance(1, 4) {
-		// several waiters parked across one expiry instant, some of them giving up before it
-		c.Mode = "expwait"
-		c.Sched = sched(r, 5*time.Millisecond, 60000)
-		c.Sched.HorizonNs = int64(time.Hour)
-		d := sim.Pick(r, 20*time.Millisecond, 200*time.Millisecond, 2*time.Second)
-		c.Tasks = append(c.Tasks, sim.Task{Name: "m0", Ops: []sim.Op{{K: sim.Pick(r, "put", "create"), S: "a", V: "x1", D: int64(d)}}})
-		nw := 2 + r.Intn(2)
-		for i := 0; i < nw; i++ {
-			t := sim.Task{Name: fmt.Sprintf("w%d", i)}
-			t.Ops = append(t.Ops, sim.Op{K: "jump", D: int64(time.Duration(1+r.Intn(50)) * time.Microsecond)})
-			t.Ops = append(t.Ops, sim.Op{K: "get", S: "a"})
-			op := sim.Op{K: "wait", S: "a", N: 0}
-			switch r.Intn(3) {
-			case 0:
-				op.E = 1000 + int64(d)/int64(2+r.Intn(6)) // gives up before the expiry
-			case 1:
-				op.E = int64(1 + r.Intn(12))
-			default:
-				op.E = 1000 + int64(d) + int64(2*time.Second) // safety deadline well after it
-			}
-			t.Ops = append(t.Ops, op)
-			c.Tasks = append(c.Tasks, t)
-		}
-		if r.Chance(1, 2) {
-			// a writer replaces the record right around its expiry instant (no expiry /
-			// a later one): the fresh record must survive whatever the parked waiters do
-			off := time.Duration(r.Intn(41)-20) * time.Duration(c.Sched.MaxJitter) / 4
-			t := sim.Task{Name: "m1"}
-			t.Ops = append(t.Ops, sim.Op{K: "jump", D: int64(d + off)})
-			t.Ops = append(t.Ops, sim.Op{K: "put", S: "a", V: "x2", D: int64(sim.Pick(r, 0, time.Hour))})
-			t.Ops = append(t.Ops, sim.Op{K: "jump", D: int64(sim.Pick(r, time.Microsecond, time.Millisecond, 300*time.Millisecond))})
-			t.Ops = append(t.Ops, sim.Op{K: "get", S: "a", F: true})
-			c.Tasks = append(c.Tasks, t)
-		}
+		genExpWait(g, c)
 		return
 	}
 	c.Mode = "exp"
@@ -354,7 +331,7 @@ func genC06(g *gen, c *sim.Case, tier string) {
 		case 2:
 			d = sim.Pick(r, FarExpiry2500, FarExpiry9999, int64(200*365*24*time.Hour))
 		default:
-			d = int64(sim.Pick(r, 5*time.Millisecond, 50*time.Millisecond, time.Second, 20*time.Second))
+			d = int64(sim.Pick(r, 5*time.Millisecond, 50*time.Millisecond, time.Second, 20*time.Second, 300*time.Microsecond, 900*time.Microsecond, 1500*time.Microsecond))
 		}
 		switch r.Intn(3) {
 		case 0:
@@ -417,8 +394,67 @@ func genC06(g *gen, c *sim.Case, tier string) {
 	c.Tasks = []sim.Task{task}
 }
 
+// genExpWait: several waiters parked across one expiry instant (C06; C07 uses it
+// for "returns promptly once the key is absent" when absence comes from expiry).
+func genExpWait(g *gen, c *sim.Case) {
+	r := g.r
+	// several waiters parked across one expiry instant, some of them giving up before it
+	c.Mode = "expwait"
+	c.Sched = sched(r, 5*time.Millisecond, 60000)
+	c.Sched.HorizonNs = int64(time.Hour)
+	d := sim.Pick(r, 20*time.Millisecond, 200*time.Millisecond, 2*time.Second)
+	c.Tasks = append(c.Tasks, sim.Task{Name: "m0", Ops: []sim.Op{{K: sim.Pick(r, "put", "create"), S: "a", V: "x1", D: int64(d)}}})
+	nw := 2 + r.Intn(2)
+	for i := 0; i < nw; i++ {
+		t := sim.Task{Name: fmt.Sprintf("w%d", i)}
+		t.Ops = append(t.Ops, sim.Op{K: "jump", D: int64(time.Duration(1+r.Intn(50)) * time.Microsecond)})
+		t.Ops = append(t.Ops, sim.Op{K: "get", S: "a"})
+		op := sim.Op{K: "wait", S: "a", N: 0}
+		switch r.Intn(3) {
+		case 0:
+			op.E = 1000 + int64(d)/int64(2+r.Intn(6)) // gives up before the expiry
+		case 1:
+			op.E = int64(1 + r.Intn(12))
+		default:
+			op.E = 1000 + int64(d) + int64(2*time.Second) // safety deadline well after it
+		}
+		t.Ops = append(t.Ops, op)
+		c.Tasks = append(c.Tasks, t)
+	}
+	if r.Chance(1, 2) {
+		// a waiter that arrives within a few steps of the expiry instant: between the
+		// moment the storage finds the record alive and the moment it computes how long
+		// to wait, the clock moves
+		t := sim.Task{Name: fmt.Sprintf("w%d", nw)}
+		off := time.Duration(r.Intn(60)) * time.Duration(c.Sched.MaxJitter) / 2
+		t.Ops = append(t.Ops, sim.Op{K: "get", S: "a"})
+		t.Ops = append(t.Ops, sim.Op{K: "jump", D: int64(d - off)})
+		t.Ops = append(t.Ops, sim.Op{K: "wait", S: "a", N: 0, E: 1000 + int64(d) + int64(2*time.Second)})
+		c.Tasks = append(c.Tasks, t)
+		if r.Chance(1, 2) {
+			c.Sched.Dense = true
+			c.Sched.MaxSteps *= 4
+		}
+	}
+	if r.Chance(1, 2) {
+		// a writer replaces the record right around its expiry instant (no expiry /
+		// a later one): the fresh record must survive whatever the parked waiters do
+		off := time.Duration(r.Intn(41)-20) * time.Duration(c.Sched.MaxJitter) / 4
+		t := sim.Task{Name: "m1"}
+		t.Ops = append(t.Ops, sim.Op{K: "jump", D: int64(d + off)})
+		t.Ops = append(t.Ops, sim.Op{K: "put", S: "a", V: "x2", D: int64(sim.Pick(r, 0, time.Hour))})
+		t.Ops = append(t.Ops, sim.Op{K: "jump", D: int64(sim.Pick(r, time.Microsecond, time.Millisecond, 300*time.Millisecond))})
+		t.Ops = append(t.Ops, sim.Op{K: "get", S: "a", F: true})
+		c.Tasks = append(c.Tasks, t)
+	}
+}
+
 func genC07(g *gen, c *sim.Case, tier string) {
 	r := g.r
+	if r.Chance(1, 7) {
+		genExpWait(g, c)
+		return
+	}
 	c.Mode = "wait"
 	c.Sched = sched(r, 2*time.Millisecond, 60000)
 	c.Sched.HorizonNs = int64(time.Hour)
